@@ -28,27 +28,37 @@ pub fn normalise_panic(msg: &str) -> String {
     s.chars().take(70).collect::<String>().trim().replace(' ', "_")
 }
 
-/// A case string is "<stage name>|<case text>"; properties that support replay
-/// implement `replay_text`.
+/// A recorded case is "<stage name>|<text>". The case is located in the named stage by its
+/// text: first an exact match of `case_text(i)`, else the longest `case_text(i)` that is a
+/// prefix of the recorded text (checks append details such as the fault position).
 pub fn replay_case(p: &dyn Prop, tier: Tier, case: &str, out: &mut WorkerOut) {
     let (stage_name, text) = match case.split_once('|') {
         Some(x) => x,
         None => ("", case),
     };
     let plan = p.plan(tier);
-    // find the case index by text within the named stage (bounded scan)
     for (si, st) in plan.stages.iter().enumerate() {
         if st.name != stage_name {
             continue;
         }
+        let mut best: Option<(u64, usize)> = None;
+        let limit = st.len.min(5_000_000);
         let mut i = 0;
-        while i < st.len {
-            if p.case_text(tier, si, i) == text {
-                p.run(tier, si, i, i + 1, out);
-                return;
+        while i < limit {
+            let t = p.case_text(tier, si, i);
+            if t == text {
+                best = Some((i, usize::MAX));
+                break;
+            }
+            if !t.is_empty() && text.starts_with(&t) && best.map(|b| t.len() > b.1).unwrap_or(true) {
+                best = Some((i, t.len()));
             }
             i += 1;
         }
+        if let Some((i, _)) = best {
+            p.run(tier, si, i, i + 1, out);
+            return;
+        }
     }
-    out.fail("replay:case-not-found", case, "the recorded case is not in this tier's space");
+    out.fail("replay:case-not-found", case, "the recorded case is not in this tier's space (try the tier recorded in the file)");
 }
